@@ -12,7 +12,8 @@
    All theorems hold for groups of any size and nesting depth, any atom type, any event type
    and any matching relation `mt` between atoms and events. *)
 From Coq Require Import List Bool Arith Permutation.
-From NG Require Import V2.Dnf V2.Dnf_proofs V2.Groups V2.Groups_proofs V2.Groups_examples.
+From NG Require Import V2.Dnf V2.Dnf_proofs V2.Groups V2.Groups_proofs V2.GroupsFail V2.GroupsFail_proofs
+                       V2.Groups_examples.
 Import ListNotations.
 
 (* the normaliser never raises and its result spells the same boolean function *)
@@ -140,3 +141,75 @@ Theorem C07_await_when :
 Proof. exact (fun Flow Step fin f steps H => conj (run_first_sat Flow Step fin SAwait f steps H)
                                                   (run_first_sat Flow Step fin SWhen f steps H)). Qed.
 Print Assumptions C07_await_when.
+
+(* ---------- failing members and `when` statements with several cases (V2/GroupsFail.v) ----------
+   mt a e = the flow instance of atom a finishes in step e, fl a e = it fails in step e.
+   status p a = what the first such event in p did to a.  A failed member never finishes. *)
+
+(* what the expansions emit on the failure side: a case waits for ALL its alternatives to fail
+   (WaitForHeads(number of alternatives), none for a single alternative), a `when` statement waits
+   for ALL its cases to fail (WaitForHeads(number of cases)) *)
+Theorem C07_fail_compile_shape :
+  forall (A : Type) (st : stmt) (fs : list (formula A)),
+    stmt_ok A st fs ->
+    exists els,
+      fcompile st fs = Some (mkF (map (fun f => cprog_of (prog_of st (nf f))) fs) els)
+      /\ fw_ok els (length fs)
+      /\ (forall alts : list (list A),
+            cp_branches (cprog_of (prog_of st alts)) = map branch_of alts
+            /\ fw_ok (cp_fail_wait (cprog_of (prog_of st alts))) (length alts)).
+Proof.
+  exact (fun A st fs H =>
+           match fcompile_spec A st fs H with
+           | ex_intro _ els (Logic.conj H1 H2) =>
+               ex_intro _ els (Logic.conj H1 (Logic.conj H2 (cprog_of_prog_of A st)))
+           end).
+Qed.
+Print Assumptions C07_fail_compile_shape.
+
+(* THE property with failing members: the statement completes in the first step in which the
+   FINISHED members satisfy the formula of some case - failed members count as never finishing -
+   and the body that runs belongs to one of exactly those cases; it fails (else / abort) in the
+   first step in which no case can hold any more; nothing happens before (fspec, spelled out by
+   the three theorems below) *)
+Theorem C07_cases_fail :
+  forall (A E : Type) (mt fl : A -> E -> bool) (st : stmt) (fs : list (formula A)) (evs : list E),
+    stmt_ok A st fs ->
+    fs <> [] ->
+    (forall f, In f fs -> eval (fun _ => false) f = false) ->
+    (forall f, In f fs -> eval (fun _ => true) f = true) ->
+    frun mt fl st fs evs = fspec mt fl fs evs.
+Proof. exact frun_fspec. Qed.
+Print Assumptions C07_cases_fail.
+
+Theorem C07_cases_done_spelled :
+  forall (A E : Type) (mt fl : A -> E -> bool) (fs : list (formula A)) (evs : list E) (n : nat) (w : list nat),
+    fspec mt fl fs evs = FoDone n w <->
+    (1 <= n <= length evs
+     /\ fspec_at mt fl fs (firstn n evs) = RDone w
+     /\ forall m, 1 <= m < n -> fspec_at mt fl fs (firstn m evs) = RNone).
+Proof. exact fspec_done_iff. Qed.
+Print Assumptions C07_cases_done_spelled.
+
+Theorem C07_cases_winners :
+  forall (A E : Type) (mt fl : A -> E -> bool) (fs : list (formula A)) (p : list E) (w : list nat) (d : formula A),
+    fspec_at mt fl fs p = RDone w ->
+    w <> [] /\ forall i, In i w <-> (i < length fs /\ eval (is_fin mt fl p) (nth i fs d) = true).
+Proof. exact fspec_at_done. Qed.
+Print Assumptions C07_cases_winners.
+
+(* a statement has failed after p iff no case holds and no case can hold even if every member
+   that has not failed finishes: every alternative of every case has a failed member *)
+Theorem C07_cases_failed_iff :
+  forall (A E : Type) (mt fl : A -> E -> bool) (fs : list (formula A)) (p : list E),
+    fspec_at mt fl fs p = RFail <->
+    ((forall f, In f fs -> eval (is_fin mt fl p) f = false)
+     /\ forall f, In f fs -> eval (not_failed mt fl p) f = false).
+Proof. exact fspec_at_fail. Qed.
+Print Assumptions C07_cases_failed_iff.
+
+Theorem C07_cases_no_error :
+  forall (A E : Type) (mt fl : A -> E -> bool) (st : stmt) (fs : list (formula A)) (evs : list E),
+    stmt_ok A st fs -> frun mt fl st fs evs <> FoErr.
+Proof. exact frun_no_error. Qed.
+Print Assumptions C07_cases_no_error.
